@@ -274,6 +274,9 @@ def body(chk, db, cfgname):
                     r4.bad(site, f.loc(it["node"]), "the job map is not disseminated consistently: " + why, cfgname)
         if nb == 0:
             r4.bad("%s:job-map-broadcast" % f.qn, f.loc(), "no matching pair of broadcast arms found: the job map is not disseminated to the other ranks", cfgname)
+        # the two broadcast vectors are the dispatch map, unzipped in ONE iteration order, and re-zipped on the other ranks
+        with r4.guard("%s:job-map-unzip" % f.qn, f.loc(), cfgname):
+            check_unzip(r4, f, sp, ctx, items, cfgname)
         # the map returned on non-root ranks is rebuilt from the two broadcast vectors
         site = "%s:dispatch-loop" % f.qn
         loops = [j for j, n in f.walk(f.body) if n["k"] in ("for", "while", "do") and n.get("c") is not None and msg_tainted(ctx.key(n["c"]))]
@@ -317,6 +320,106 @@ def body(chk, db, cfgname):
 
     chk.undecided.append("exactly-once execution and termination for every interleaving of messages and job executions, and across consecutive rounds on one communicator (schedule quantifier: needs model checking of the protocol, a different technique family)")
     chk.trusted.append("Boost.MPI request semantics (test() of a completed non-blocking receive returns the status once)")
+
+
+def check_unzip(r4, f, sp, ctx, items, cfgname):
+    site = "%s:job-map-unzip" % f.qn
+    br = [it for it in items if it["kind"] == "branch" and rank_tainted(it["cond"]) and it["then"] and it["else"]]
+    if len(br) != 1:
+        raise AnalysisBroken("expected one root / non-root dissemination branch")
+    root_arm, other_arm = br[0]["then"], br[0]["else"]
+    # which arm is the root's? the one whose condition fact makes rank == ROOT
+    tf = ctx.cmp_fact(br[0]["condnode"], True)
+    if not any(x[0] == "==" for x in tf):
+        root_arm, other_arm = other_arm, root_arm
+    rb = [x for x in Spmd.flat(root_arm) if x["op"] == "boost::mpi::broadcast"]
+    ob = [x for x in Spmd.flat(other_arm) if x["op"] == "boost::mpi::broadcast"]
+    if len(rb) != 2 or len(ob) != 2:
+        raise AnalysisBroken("expected two broadcasts (jobs, workers) in each arm")
+    vj, vw = rb[0]["payload"], rb[1]["payload"]
+    if vj[0] != "var" or vw[0] != "var":
+        raise AnalysisBroken("broadcast payloads are not local vectors")
+
+    def sources(v):
+        """how vector v is filled: list of (kind, key of the stored value, enclosing loop node)"""
+        out = []
+        dv = ctx.decls.get(v[1], {})
+        if dv.get("init") is not None:
+            ik = ctx.key(dv["init"])
+            # vector(n) / vector(n, x): sized only;  vector(other container): copy
+            n_ = f.nodes[dv["init"]]
+            if n_["k"] == "construct" and n_["args"] and "vector" in (f.nodes[n_["args"][0]].get("t") or ""):
+                out.append(("copy", ctx.key(n_["args"][0]), None))
+            elif n_["k"] != "construct" and "vector" in (n_.get("t") or ""):
+                out.append(("copy", ik, None))      # copy-initialised from another container (elided copy constructor)
+        for m in ctx.mut.get(v[1], []):
+            mn = f.nodes[m]
+            L = enclosing_loops(f, m)
+            if mn["k"] == "bin" and mn["op"] == "=":
+                out.append(("elem", ctx.key(mn["r"], inline=False), L[0] if L else None, ctx.key(mn["l"], inline=False)))
+            elif mn["k"] == "call" and strip_targs(mn.get("cname") or "").endswith("::push_back"):
+                out.append(("push", ctx.key(mn["args"][0], inline=False), L[0] if L else None))
+            elif mn["k"] == "call" and strip_targs(mn.get("cname") or "").split("::")[-1] in ("reserve",):
+                continue
+            elif mn["k"] == "call" and sp.classify(f, m) is not None:
+                continue      # the broadcast itself
+            else:
+                out.append(("other", ctx.key(m, inline=False), None))
+        return out
+    sj, sw_ = sources(vj), sources(vw)
+
+    def it_of(src, which):
+        k = src[1]
+        if k[0] == "field" and k[1] == "std::pair::" + which and k[2][0] == "op" and k[2][1] in ("->", "*") and k[2][2][0] == "var":
+            return k[2][2]
+        return None
+    fj = [s_ for s_ in sj if s_[0] in ("elem", "push")]
+    fw = [s_ for s_ in sw_ if s_[0] in ("elem", "push")]
+    copies = [s_ for s_ in sj + sw_ if s_[0] in ("copy", "other")]
+    if len(fj) == 1 and len(fw) == 1 and not copies:
+        ij, iw = it_of(fj[0], "first"), it_of(fw[0], "second")
+        same_loop = fj[0][2] is not None and fj[0][2] == fw[0][2]
+        if ij is not None and iw is not None and ij[:2] == iw[:2] and same_loop:
+            # the iterator walks the map the root returns
+            dv = ctx.decls.get(ij[1], {})
+            src = ctx.key(dv["init"]) if dv.get("init") is not None else None
+            while src is not None and src[0] in ("ctor", "cast") and len(src) == 3:
+                src = src[2]
+            ok_src = src is not None and src[0] == "mcall" and src[1] == "std::map::begin"
+            adv = [m for m in ctx.mut.get(ij[1], []) if enclosing_loops(f, m)[:1] == [fj[0][2]]]
+            if ok_src and len(adv) == 1:
+                r4.ok(site, f.loc(fj[0][2]), "jobs[i] = it->first and workers[i] = it->second from the same iterator over the dispatch map, advanced once per entry", cfgname)
+            else:
+                r4.bad(site, f.loc(fj[0][2]), "the iterator that feeds jobs[] and workers[] does not walk the dispatch map one entry per element", cfgname)
+        elif ij is None or iw is None:
+            raise AnalysisBroken("jobs / workers are not filled from ->first / ->second of a map iterator")
+        else:
+            r4.bad(site, f.loc(), "jobs[] and workers[] are filled from different iterators / loops: element i of one does not belong to element i of the other", cfgname)
+    else:
+        srcs_j = sorted({fact_str(("true", s_[1])) for s_ in sj})
+        srcs_w = sorted({fact_str(("true", s_[1])) for s_ in sw_})
+        if copies and (fj or fw or len(copies) == 2):
+            r4.bad(site, f.loc(), "the job ids are taken from %s while the worker ids are taken from %s: the two sequences are in different orders (hand-out order vs. map order), so the map rebuilt on the other ranks "
+                   "as job_map[jobs[i]] = workers[i] pairs jobs with the wrong ranks" % (srcs_j, srcs_w), cfgname)
+        else:
+            raise AnalysisBroken("cannot resolve how the broadcast vectors are filled")
+    # non-root: job_map[jobs[i]] = workers[i] for all i, with jobs / workers the vectors received in the same positions
+    oj, ow = ob[0]["payload"], ob[1]["payload"]
+    site2 = "%s:job-map-rezip" % f.qn
+    good = False
+    for j, n in f.walk(f.body):
+        if n["k"] == "bin" and n["op"] == "=":
+            lk = ctx.key(n["l"], inline=False)
+            rk = ctx.key(n["r"], inline=False)
+            if lk[0] == "op" and lk[1] == "[]" and lk[3][0] == "op" and lk[3][1] == "[]" and lk[3][2][:2] == oj[:2] and rk[0] == "op" and rk[1] == "[]" and rk[2][:2] == ow[:2] and lk[3][3] == rk[3]:
+                L = enclosing_loops(f, j)
+                shp = loop_shape(f, ctx, L[0]) if L else None
+                if shp is not None and shp["kind"] == "index" and shp["start"] == ("lit", 0) and not shp["exits"] and shp["bound"] in (("mcall", "std::vector::size", oj), ("mcall", "std::vector::size", ow)):
+                    good = True
+    if good:
+        r4.ok(site2, f.loc(), "job_map[jobs[i]] = workers[i] for every received i", cfgname)
+    else:
+        r4.bad(site2, f.loc(), "the non-root ranks do not rebuild the map as job_map[jobs[i]] = workers[i] over all received entries (first broadcast = job ids, second = worker ids)", cfgname)
 
 
 def check_pool(r6, db, cfgname, sp, runs):
